@@ -518,8 +518,14 @@ mod c03_batch {
                         let seed = rng.below(1 << 30);
                         let pi = rng.usize_below(3);
                         let w = views(&us, &vs, &dev);
-                        let obs = block_on_timeout(120, run(seed, &w)).expect("harness: first run timed out");
-                        out.push(format!("c03.batch {seed} {pi} {us} {vs} {dev} {}", randomness(&obs, pi)));
+                        // a panic / hang of the real code in this observation run must not take the suite down:
+                        // the request is emitted without randomness and `exec` reports the panic for this input
+                        let first = std::panic::catch_unwind(std::panic::AssertUnwindSafe(|| block_on_timeout(120, run(seed, &w))));
+                        let rnd = match first {
+                            Ok(Ok(obs)) => randomness(&obs, pi),
+                            _ => "- 0 0 -".to_string(),
+                        };
+                        out.push(format!("c03.batch {seed} {pi} {us} {vs} {dev} {rnd}"));
                     }
                 }
                 out
